@@ -1,0 +1,22 @@
+//go:build verif
+
+package the
+
+import (
+	"github.com/AliceO2Group/Control/common/event"
+	"github.com/AliceO2Group/Control/common/event/topic"
+)
+
+// SetEventWriterForVerif installs w as the writer returned by EventWriterWithTopic(t).
+func SetEventWriterForVerif(t topic.Topic, w event.Writer) {
+	mu.Lock()
+	defer mu.Unlock()
+	writers[t] = w
+}
+
+// ResetEventWritersForVerif forgets all writers without closing them.
+func ResetEventWritersForVerif() {
+	mu.Lock()
+	defer mu.Unlock()
+	clear(writers)
+}
